@@ -124,6 +124,7 @@ class Ctx:
         self.queries = 0
         self.notes = []
         self.skolems = {}
+        self.instances = {}             # skolem name -> extra instantiation terms for callee postconditions
         self.assumptions_used = set()
         self.lib_used = set()
         self.axioms = []                # background facts instantiated so far (also in pc)
